@@ -109,6 +109,12 @@ M = [
 				"",
 				"Cluster",
 				"Recover",'''),
+ ('C15-hand-envvars-from-empty-json', 'monitor/pubsubmon/config.go',
+  '''func (cfg *Config) ApplyEnvVars() error {
+	jcfg := cfg.toJSONConfig()
+''', '''func (cfg *Config) ApplyEnvVars() error {
+	jcfg := &jsonConfig{}
+'''),
  ('C04-hand-unpindag-breaks-on-error', 'cluster.go',
   '''		err = c.consensus.LogUnpin(ctx, api.PinCid(ci))
 		if err != nil {
